@@ -12,6 +12,7 @@
 3. property-level oracle on the implementation, independent of the model: harness/refeval.py
    (type, free symbols, value under random / exhaustive interpretations).
 """
+import hashlib
 import itertools
 import json
 import warnings
@@ -88,17 +89,53 @@ def canon_args(n):
 
 
 def zl(n):
-    """Gallina Z literal; hexadecimal for ints beyond Python's str() digit limit (which must stay
-    at its default: the code under test depends on it)."""
+    """Gallina Z literal.  Ints beyond 96 bits are written as `zchunks` of their 64-bit
+    limbs (least significant first): coqc's number parser is very slow on literals with thousands of digits, and
+    Python's own str() refuses more than 4300 digits (a limit that must stay at its default here,
+    because the code under test depends on it)."""
     n = int(n)
-    if abs(n) < (1 << 13000):
+    if abs(n) < (1 << 96):
         return "(%d)%%Z" % n
-    return "(%s0x%x)%%Z" % ("-" if n < 0 else "", abs(n))
+    a, chunks = abs(n), []
+    while a:
+        chunks.append(a & ((1 << 64) - 1))
+        a >>= 64
+    return "(%szchunks [%s])%%Z" % ("- " if n < 0 else "", "; ".join("%d" % c for c in chunks))
+
+
+ZCHUNKS = ("Definition zchunks (l : list Z) : Z := fold_right (fun c acc => (c + Z.shiftl acc 64)%Z) 0%Z l.\n"
+           "Definition zrepeat {A} (x : A) (n : Z) : list A := List.repeat x (Z.to_nat n).\n")
+
+
+def zseq(codes):
+    """Gallina `list Z` for a sequence of code points; long runs are written with List.repeat
+    (coqc is very slow on list literals with thousands of elements)."""
+    codes = list(codes)
+    if len(codes) <= 200:
+        return "[" + "; ".join(zl(c) for c in codes) + "]"
+    parts, lit, i = [], [], 0
+    while i < len(codes):
+        j = i
+        while j < len(codes) and codes[j] == codes[i]:
+            j += 1
+        if j - i >= 8:
+            if lit:
+                parts.append("[" + "; ".join(zl(c) for c in lit) + "]")
+                lit = []
+            parts.append("zrepeat %s %s" % (zl(codes[i]), zl(j - i)))
+        else:
+            lit += codes[i:j]
+        i = j
+    if lit:
+        parts.append("[" + "; ".join(zl(c) for c in lit) + "]")
+    return "(" + " ++ ".join(parts) + ")"
 
 
 def opr(n):
     if n.node_type() == op.INT_CONSTANT:
         return "(OIntC %s)" % zl(n.constant_value())
+    if n.node_type() == op.STR_CONSTANT:
+        return "(OStrC %s)" % zseq(ord(c) for c in n.constant_value())
     return tocoq.opr(n)
 
 
@@ -114,7 +151,7 @@ def emit(roots, body_fn):
 PREAMBLE = ("From Coq Require Import List ZArith Bool String.\n"
             "From PySMT.core Require Import CaseUtil Syntax PyPrims.\n"
             "From PySMT.models Require Import TypeChecker Oracles Ctors Simplifier.\n"
-            "Import ListNotations.\nOpen Scope bool_scope.\n")
+            "Import ListNotations.\nOpen Scope bool_scope.\n" + ZCHUNKS)
 
 OK_DEF = """
 Definition entry := (op * list term * term)%type.
@@ -319,7 +356,7 @@ def semantic_problem(f, r, exc, rnd, ninterp, stats=None):
                 stats["inexact_skipped"] = stats.get("inexact_skipped", 0) + 1
             continue
         if type(vf) is not type(vr) or vf != vr:
-            return Problem("value", "value of f is %r, value of simplify(f) is %r" % (vf, vr), it)
+            return Problem("value", "value of f is %s, value of simplify(f) is %s" % (srepr(vf), srepr(vr)), it)
     return None
 
 
@@ -349,6 +386,13 @@ def minimise(env, f, rnd):
             pass
         return s, r, exc, p
     return None
+
+
+def srepr(v):
+    try:
+        return repr(v)[:400]
+    except ValueError:
+        return "<value with more than 4300 digits>"
 
 
 def ser(f, limit=2000):
@@ -436,7 +480,7 @@ def rebuild_text(f):
         if nt == op.SYMBOL:
             lines.append("n%d = m.Symbol(%r, %s)" % (i, n.symbol_name(), type_text(n.symbol_type())))
         elif nt == op.INT_CONSTANT:
-            lines.append("n%d = m.Int(%d)" % (i, n.constant_value()))
+            lines.append("n%d = m.Int(%s)" % (i, hex(n.constant_value())))
         elif nt == op.REAL_CONSTANT:
             v = Fraction(n.constant_value())
             lines.append("n%d = m.Real(Fraction(%d, %d))" % (i, v.numerator, v.denominator))
@@ -600,6 +644,9 @@ class Directed(object):
             out += [m.Implies(a, b), m.Iff(a, b)]
         for a, b, c in self.pick(itertools.product(B, B, B), 3 * self.cap):
             out += [m.And(a, b, c), m.Or(a, b, c)]
+        T_, F_ = m.TRUE(), m.FALSE()
+        out += [m.And(T_, T_, T_), m.Or(F_, F_, F_), m.And(T_, T_, T_, T_), m.Or(F_, F_, F_, F_), m.And(T_, T_), m.Or(F_, F_),
+                m.And(T_, F_, T_), m.Or(F_, T_, F_)]
         for n in (0, 1, 4, 5):
             for _ in range(6):
                 args = [self.rnd.choice(B) for _ in range(n)]
@@ -709,7 +756,7 @@ class Directed(object):
         for dg in (4299, 4300, 4301):
             out.append(m.StrToInt(m.String("7" * dg)))
             out.append(m.StrToInt(m.String("0" * dg + "1")))
-        out.append(m.StrToInt(m.String("1_" * 2200 + "1")))
+        out.append(m.StrToInt(m.String("1_" * 40 + "1")))
         out.append(m.StrToInt(m.String(" " * 10 + "-" + "3" * 4300 + " ")))
         for a, b in self.pick(itertools.product(S, S), 3 * self.cap):
             out += [m.StrConcat(a, b), m.StrContains(a, b), m.StrPrefixOf(a, b), m.StrSuffixOf(a, b), m.Equals(a, b)]
@@ -811,7 +858,14 @@ class Directed(object):
 # ----------------------------------------------------------------------------------------------
 
 def zlist(s):
-    return "[" + "; ".join(zl(ord(c)) for c in s) + "]"
+    if len(s) > 200 and s.count("_") > 100:      # "1_1_1_...": periodic, not run-length friendly
+        body = s.strip()
+        if body == "1_" * (len(body) // 2) + "1":
+            lead = s[:len(s) - len(s.lstrip())]
+            trail = s[len(s.rstrip()):]
+            return "(%s ++ List.concat (zrepeat [%s; %s] %s) ++ [%s] ++ %s)" % (
+                zseq(ord(c) for c in lead), zl(49), zl(95), zl(len(body) // 2), zl(49), zseq(ord(c) for c in trail))
+    return zseq(ord(c) for c in s)
 
 
 def zopt(v):
@@ -959,7 +1013,7 @@ def run_prims(chk, rnd, tier):
     shard = 500
     for k in range(0, len(cases), shard):
         text = ("From Coq Require Import List ZArith Bool.\nFrom PySMT.core Require Import CaseUtil Syntax PyPrims.\n"
-                "Import ListNotations.\nOpen Scope bool_scope.\n")
+                "Import ListNotations.\nOpen Scope bool_scope.\n" + ZCHUNKS)
         text += "Definition cases : list bool := [\n%s\n].\n" % ";\n".join(e for _, e in cases[k:k + shard])
         text += "Eval vm_compute in mismatches (fun b : bool => b) cases.\n"
         p = os.path.join(chk.dir, "cases_prims_%d.v" % (k // shard))
@@ -1017,7 +1071,7 @@ class Stream(object):
             self.raised[exc] = self.raised.get(exc, 0) + 1
         nontrivial = r is not f
         self.nontrivial += 1 if nontrivial else 0
-        self.chk.count((stream, tocoq.skey(f)), nontrivial=nontrivial)
+        self.chk.count((stream, hashlib.md5(row.encode()).hexdigest()), nontrivial=nontrivial)
         if len(self.chk.cov["samples"]) < 6 and nontrivial and self.rnd.random() < 0.02:
             self.chk.sample({"stream": stream, "formula": sf[:300], "simplified": ser(r, 300) if r is not None else "raises %s" % exc})
         p = semantic_problem(f, r, exc, self.rnd, self.ninterp, self.stats)
